@@ -199,3 +199,16 @@ func init() {
 		Runs: []Run{{Pkg: hp + "c12", Variant: "scaled4", Optional: true}, {Pkg: hp + "c12", Variant: "scaled16", Optional: true}, {Pkg: hp + "c12", Variant: "real"}},
 	}
 }
+
+func init() {
+	specs["C13"] = &Spec{
+		Title: "I/O failures surface; nothing is lost silently",
+		Level: "fault_enumeration",
+		LevelText: "Destination: for every (plaintext length at the chunk seams / every length on the scaled build, armor, 1-2 recipients, write split, caller model) the explorer injects a failure at every destination Write call index (permanent or once, returning 0 or a partial count; pairs of faults on the thorough tier); whenever Encrypt, Write and Close all report success the accepted bytes must be a complete file that the reference decoder and the real Decrypt open. Source: a failure at every byte offset of small files and every seam +-2 / stride of large ones (permanent or once, alone or with data, three error values) x three read sizes must surface as a non-EOF error, release only a prefix, and the failed stream must keep failing; damaged armored inputs are read on after their first error.",
+		LevelNote: "faults are injected at the io.Reader / io.Writer seam the library is given (every fault the property talks about enters there); a transient io.ErrUnexpectedEOF is excluded as indistinguishable from a short final chunk",
+		Technique: "exhaustive fault-point enumeration on the implementation (controlled fault injector at every write call index / source offset, deviation-bounded for fault pairs) with a reference decoder oracle",
+		Rule: "enumerate fault positions and kinds; oracle: no silent loss (all-success => valid complete file; source fault => non-EOF error), released bytes are a prefix, stickiness, no panic. distinct_nontrivial counts distinct fault schedules / fault positions.",
+		Assumptions: commonAssume,
+		Runs: []Run{{Pkg: hp + "c13", Variant: "scaled16", Optional: true}, {Pkg: hp + "c13", Variant: "real"}},
+	}
+}
